@@ -6,7 +6,7 @@ D=/verif/seeded/$ID/$M; T=/tmp/alt/$ID$M
 mkdir -p $T
 [ -d $T/cpppo ] || git -C /repo worktree add -q --detach $T/cpppo HEAD
 git -C $T/cpppo checkout -q -- . ; git -C $T/cpppo checkout -q --detach "$(git -C /repo rev-parse HEAD)"
-run_demo() { ( mkdir -p $T/m && cd $T && sed -e "s#/tmp/mut[23456789]\?/$ID#$T#g" $D/demo.py > $T/m/demo.py && PYTHONPATH=$T timeout 300 /venv/bin/python -W ignore $T/m/demo.py >/dev/null 2>&1; echo $? ); }
+run_demo() { ( mkdir -p $T/m && cd $T && sed -e "s#/tmp/mut[0-9]*/$ID#$T#g" $D/demo.py > $T/m/demo.py && PYTHONPATH=$T timeout 300 /venv/bin/python -W ignore $T/m/demo.py >/dev/null 2>&1; echo $? ); }
 dc=$(run_demo)
 if ! git -C $T/cpppo apply $D/patch.diff 2>/dev/null; then echo -e "$ID\t$M\tpatch-does-not-apply\t-\t-\t-\t-"; exit 0; fi
 dp=$(run_demo)
